@@ -334,6 +334,8 @@ fn seg_enum(prop: &str, max_values: i64, tmax: i64, edge: bool, max_states: usiz
         }
         a.push(RawOp::new(S_QUERY, &[x, 0, y, 0, 0]));
         a.push(RawOp::new(S_QUERY, &[x, 0, y, 0, 1]));
+        // one `next`, the rest through internal iteration (`for_each`)
+        a.push(RawOp::new(S_QUERY, &[x, 0, y, 0, 7]));
     }
     a.push(RawOp::new(S_ADV, &[1]));
     a.push(RawOp::new(S_CLEAR, &[0]));
